@@ -249,6 +249,177 @@ variable {K : Type} [Field K] [LinearOrder K] [IsStrictOrderedRing K]
   [quad_rootcoeffs_y_a p0x p0y p1x p1y p2x p2y, quad_rootcoeffs_y_b p0x p0y p1x p1y p2x p2y, quad_rootcoeffs_y_c p0x p0y p1x p1y p2x p2y]
 
 
+/-- utils.quadraticRoots(a, b, c, limited=False) -/
+
+@[gen_def] def quadraticRoots_unlimited (sqrt : K → K) (a b c : K) : List K :=
+  if a = (0 : K) then
+    if b ≠ (0 : K) then
+      [((-c) / b)]
+    else
+      []
+  else
+    if ((b * b) - (((4 : K) * a) * c)) > (0 : K) then
+      if b ≥ (0 : K) then
+        if ((-(b + (sqrt ((b * b) - (((4 : K) * a) * c))))) / (2 : K)) ≠ (0 : K) then
+          if (c / ((-(b + (sqrt ((b * b) - (((4 : K) * a) * c))))) / (2 : K))) < (((-(b + (sqrt ((b * b) - (((4 : K) * a) * c))))) / (2 : K)) / a) then
+            let v0 := ((-(b + (sqrt ((b * b) - (((4 : K) * a) * c))))) / (2 : K))
+            [(c / v0), (v0 / a)]
+          else
+            let v0 := ((-(b + (sqrt ((b * b) - (((4 : K) * a) * c))))) / (2 : K))
+            [(v0 / a), (c / v0)]
+        else
+          [(((-(b + (sqrt ((b * b) - (((4 : K) * a) * c))))) / (2 : K)) / a)]
+      else
+        if ((-(b - (sqrt ((b * b) - (((4 : K) * a) * c))))) / (2 : K)) ≠ (0 : K) then
+          if (c / ((-(b - (sqrt ((b * b) - (((4 : K) * a) * c))))) / (2 : K))) < (((-(b - (sqrt ((b * b) - (((4 : K) * a) * c))))) / (2 : K)) / a) then
+            let v0 := ((-(b - (sqrt ((b * b) - (((4 : K) * a) * c))))) / (2 : K))
+            [(c / v0), (v0 / a)]
+          else
+            let v0 := ((-(b - (sqrt ((b * b) - (((4 : K) * a) * c))))) / (2 : K))
+            [(v0 / a), (c / v0)]
+        else
+          [(((-(b - (sqrt ((b * b) - (((4 : K) * a) * c))))) / (2 : K)) / a)]
+    else
+      []
+
+
+/-- coefficients a t^2 + b t + c + d t^3 that CubicBezier._findRoots('y') extracts -/
+
+@[gen_def] def cubic_rootcoeffs_y_a (p0x p0y p1x p1y p2x p2y p3x p3y : K) : K :=
+  ((((3 : K) * p0y) - ((6 : K) * p1y)) + ((3 : K) * p2y))
+
+@[gen_def] def cubic_rootcoeffs_y_b (p0x p0y p1x p1y p2x p2y p3x p3y : K) : K :=
+  (((-3 : K) * p0y) + ((3 : K) * p1y))
+
+@[gen_def] def cubic_rootcoeffs_y_c (p0x p0y p1x p1y p2x p2y p3x p3y : K) : K :=
+  p0y
+
+@[gen_def] def cubic_rootcoeffs_y_d (p0x p0y p1x p1y p2x p2y p3x p3y : K) : K :=
+  ((((-p0y) + ((3 : K) * p1y)) - ((3 : K) * p2y)) + p3y)
+
+@[gen_def] def cubic_rootcoeffs_y (p0x p0y p1x p1y p2x p2y p3x p3y : K) : List K :=
+  [cubic_rootcoeffs_y_a p0x p0y p1x p1y p2x p2y p3x p3y, cubic_rootcoeffs_y_b p0x p0y p1x p1y p2x p2y p3x p3y, cubic_rootcoeffs_y_c p0x p0y p1x p1y p2x p2y p3x p3y, cubic_rootcoeffs_y_d p0x p0y p1x p1y p2x p2y p3x p3y]
+
+
+/-- which solver CubicBezier._findRoots('y') uses: [0] exact quadratic, [1] polished quadratic (negligible d), [2] Cardano -/
+
+@[gen_def] def cubic_findRoots_dispatch (p0x p0y p1x p1y p2x p2y p3x p3y : K) : List K :=
+  if |((((-p0y) + ((3 : K) * p1y)) - ((3 : K) * p2y)) + p3y)| ≤ (((1 : K) / 10000) * (max (max |((((3 : K) * p0y) - ((6 : K) * p1y)) + ((3 : K) * p2y))| |(((-3 : K) * p0y) + ((3 : K) * p1y))|) |p0y|)) then
+    if ((((-p0y) + ((3 : K) * p1y)) - ((3 : K) * p2y)) + p3y) = (0 : K) then
+      [(0 : K)]
+    else
+      [(1 : K)]
+  else
+    [(2 : K)]
+
+/-- the single value returned -/
+@[gen_def] def cubic_findRoots_dispatch_v (p0x p0y p1x p1y p2x p2y p3x p3y : K) : K :=
+  (cubic_findRoots_dispatch p0x p0y p1x p1y p2x p2y p3x p3y).headD 0
+
+
+/-- the closed-form roots CubicBezier._findRoots('y') hands to _polishRoots ([] in the quadratic fallbacks) -/
+
+@[gen_def] def cubic_cardano_roots (pi : K) (sqrt : K → K) (cos : K → K) (acos : K → K) (rpow : K → K → K) (p0x p0y p1x p1y p2x p2y p3x p3y : K) : List K :=
+  if |((((-p0y) + ((3 : K) * p1y)) - ((3 : K) * p2y)) + p3y)| ≤ (((1 : K) / 10000) * (max (max |((((3 : K) * p0y) - ((6 : K) * p1y)) + ((3 : K) * p2y))| |(((-3 : K) * p0y) + ((3 : K) * p1y))|) |p0y|)) then
+    []
+  else
+    if ((((((((((2 : K) * (((((3 : K) * p0y) - ((6 : K) * p1y)) + ((3 : K) * p2y)) / ((((-p0y) + ((3 : K) * p1y)) - ((3 : K) * p2y)) + p3y))) * (((((3 : K) * p0y) - ((6 : K) * p1y)) + ((3 : K) * p2y)) / ((((-p0y) + ((3 : K) * p1y)) - ((3 : K) * p2y)) + p3y))) * (((((3 : K) * p0y) - ((6 : K) * p1y)) + ((3 : K) * p2y)) / ((((-p0y) + ((3 : K) * p1y)) - ((3 : K) * p2y)) + p3y))) - (((9 : K) * (((((3 : K) * p0y) - ((6 : K) * p1y)) + ((3 : K) * p2y)) / ((((-p0y) + ((3 : K) * p1y)) - ((3 : K) * p2y)) + p3y))) * ((((-3 : K) * p0y) + ((3 : K) * p1y)) / ((((-p0y) + ((3 : K) * p1y)) - ((3 : K) * p2y)) + p3y)))) + ((27 : K) * (p0y / ((((-p0y) + ((3 : K) * p1y)) - ((3 : K) * p2y)) + p3y)))) / (27 : K)) / (2 : K)) * ((((((((2 : K) * (((((3 : K) * p0y) - ((6 : K) * p1y)) + ((3 : K) * p2y)) / ((((-p0y) + ((3 : K) * p1y)) - ((3 : K) * p2y)) + p3y))) * (((((3 : K) * p0y) - ((6 : K) * p1y)) + ((3 : K) * p2y)) / ((((-p0y) + ((3 : K) * p1y)) - ((3 : K) * p2y)) + p3y))) * (((((3 : K) * p0y) - ((6 : K) * p1y)) + ((3 : K) * p2y)) / ((((-p0y) + ((3 : K) * p1y)) - ((3 : K) * p2y)) + p3y))) - (((9 : K) * (((((3 : K) * p0y) - ((6 : K) * p1y)) + ((3 : K) * p2y)) / ((((-p0y) + ((3 : K) * p1y)) - ((3 : K) * p2y)) + p3y))) * ((((-3 : K) * p0y) + ((3 : K) * p1y)) / ((((-p0y) + ((3 : K) * p1y)) - ((3 : K) * p2y)) + p3y)))) + ((27 : K) * (p0y / ((((-p0y) + ((3 : K) * p1y)) - ((3 : K) * p2y)) + p3y)))) / (27 : K)) / (2 : K))) + (((((((3 : K) * ((((-3 : K) * p0y) + ((3 : K) * p1y)) / ((((-p0y) + ((3 : K) * p1y)) - ((3 : K) * p2y)) + p3y))) - ((((((3 : K) * p0y) - ((6 : K) * p1y)) + ((3 : K) * p2y)) / ((((-p0y) + ((3 : K) * p1y)) - ((3 : K) * p2y)) + p3y)) * (((((3 : K) * p0y) - ((6 : K) * p1y)) + ((3 : K) * p2y)) / ((((-p0y) + ((3 : K) * p1y)) - ((3 : K) * p2y)) + p3y)))) / (3 : K)) / (3 : K)) * (((((3 : K) * ((((-3 : K) * p0y) + ((3 : K) * p1y)) / ((((-p0y) + ((3 : K) * p1y)) - ((3 : K) * p2y)) + p3y))) - ((((((3 : K) * p0y) - ((6 : K) * p1y)) + ((3 : K) * p2y)) / ((((-p0y) + ((3 : K) * p1y)) - ((3 : K) * p2y)) + p3y)) * (((((3 : K) * p0y) - ((6 : K) * p1y)) + ((3 : K) * p2y)) / ((((-p0y) + ((3 : K) * p1y)) - ((3 : K) * p2y)) + p3y)))) / (3 : K)) / (3 : K))) * (((((3 : K) * ((((-3 : K) * p0y) + ((3 : K) * p1y)) / ((((-p0y) + ((3 : K) * p1y)) - ((3 : K) * p2y)) + p3y))) - ((((((3 : K) * p0y) - ((6 : K) * p1y)) + ((3 : K) * p2y)) / ((((-p0y) + ((3 : K) * p1y)) - ((3 : K) * p2y)) + p3y)) * (((((3 : K) * p0y) - ((6 : K) * p1y)) + ((3 : K) * p2y)) / ((((-p0y) + ((3 : K) * p1y)) - ((3 : K) * p2y)) + p3y)))) / (3 : K)) / (3 : K)))) < (0 : K) then
+      if (sqrt ((((-((((3 : K) * ((((-3 : K) * p0y) + ((3 : K) * p1y)) / ((((-p0y) + ((3 : K) * p1y)) - ((3 : K) * p2y)) + p3y))) - ((((((3 : K) * p0y) - ((6 : K) * p1y)) + ((3 : K) * p2y)) / ((((-p0y) + ((3 : K) * p1y)) - ((3 : K) * p2y)) + p3y)) * (((((3 : K) * p0y) - ((6 : K) * p1y)) + ((3 : K) * p2y)) / ((((-p0y) + ((3 : K) * p1y)) - ((3 : K) * p2y)) + p3y)))) / (3 : K))) / (3 : K)) * ((-((((3 : K) * ((((-3 : K) * p0y) + ((3 : K) * p1y)) / ((((-p0y) + ((3 : K) * p1y)) - ((3 : K) * p2y)) + p3y))) - ((((((3 : K) * p0y) - ((6 : K) * p1y)) + ((3 : K) * p2y)) / ((((-p0y) + ((3 : K) * p1y)) - ((3 : K) * p2y)) + p3y)) * (((((3 : K) * p0y) - ((6 : K) * p1y)) + ((3 : K) * p2y)) / ((((-p0y) + ((3 : K) * p1y)) - ((3 : K) * p2y)) + p3y)))) / (3 : K))) / (3 : K))) * ((-((((3 : K) * ((((-3 : K) * p0y) + ((3 : K) * p1y)) / ((((-p0y) + ((3 : K) * p1y)) - ((3 : K) * p2y)) + p3y))) - ((((((3 : K) * p0y) - ((6 : K) * p1y)) + ((3 : K) * p2y)) / ((((-p0y) + ((3 : K) * p1y)) - ((3 : K) * p2y)) + p3y)) * (((((3 : K) * p0y) - ((6 : K) * p1y)) + ((3 : K) * p2y)) / ((((-p0y) + ((3 : K) * p1y)) - ((3 : K) * p2y)) + p3y)))) / (3 : K))) / (3 : K)))) < (0 : K) then
+        let v0 := ((3 : K) * p1y)
+        let v1 := ((3 : K) * p2y)
+        let v2 := ((((-p0y) + v0) - v1) + p3y)
+        let v3 := ((((-3 : K) * p0y) + v0) / v2)
+        let v4 := (((((3 : K) * p0y) - ((6 : K) * p1y)) + v1) / v2)
+        let v5 := ((-((((3 : K) * v3) - (v4 * v4)) / (3 : K))) / (3 : K))
+        let v6 := (sqrt ((v5 * v5) * v5))
+        let v7 := ((2 : K) * (-(rpow (-v6) ((1 : K) / 3))))
+        let v8 := (acos (max (min ((-(((((((2 : K) * v4) * v4) * v4) - (((9 : K) * v4) * v3)) + ((27 : K) * (p0y / v2))) / (27 : K))) / ((2 : K) * v6)) (1 : K)) (-1 : K)))
+        let v9 := (v4 / (3 : K))
+        [((v7 * (cos (v8 / (3 : K)))) - v9), ((v7 * (cos ((v8 + ((2 : K) * pi)) / (3 : K)))) - v9), ((v7 * (cos ((v8 + ((4 : K) * pi)) / (3 : K)))) - v9)]
+      else
+        let v0 := ((3 : K) * p1y)
+        let v1 := ((3 : K) * p2y)
+        let v2 := ((((-p0y) + v0) - v1) + p3y)
+        let v3 := ((((-3 : K) * p0y) + v0) / v2)
+        let v4 := (((((3 : K) * p0y) - ((6 : K) * p1y)) + v1) / v2)
+        let v5 := ((-((((3 : K) * v3) - (v4 * v4)) / (3 : K))) / (3 : K))
+        let v6 := (sqrt ((v5 * v5) * v5))
+        let v7 := ((2 : K) * (rpow v6 ((1 : K) / 3)))
+        let v8 := (acos (max (min ((-(((((((2 : K) * v4) * v4) * v4) - (((9 : K) * v4) * v3)) + ((27 : K) * (p0y / v2))) / (27 : K))) / ((2 : K) * v6)) (1 : K)) (-1 : K)))
+        let v9 := (v4 / (3 : K))
+        [((v7 * (cos (v8 / (3 : K)))) - v9), ((v7 * (cos ((v8 + ((2 : K) * pi)) / (3 : K)))) - v9), ((v7 * (cos ((v8 + ((4 : K) * pi)) / (3 : K)))) - v9)]
+    else
+      if ((((((((((2 : K) * (((((3 : K) * p0y) - ((6 : K) * p1y)) + ((3 : K) * p2y)) / ((((-p0y) + ((3 : K) * p1y)) - ((3 : K) * p2y)) + p3y))) * (((((3 : K) * p0y) - ((6 : K) * p1y)) + ((3 : K) * p2y)) / ((((-p0y) + ((3 : K) * p1y)) - ((3 : K) * p2y)) + p3y))) * (((((3 : K) * p0y) - ((6 : K) * p1y)) + ((3 : K) * p2y)) / ((((-p0y) + ((3 : K) * p1y)) - ((3 : K) * p2y)) + p3y))) - (((9 : K) * (((((3 : K) * p0y) - ((6 : K) * p1y)) + ((3 : K) * p2y)) / ((((-p0y) + ((3 : K) * p1y)) - ((3 : K) * p2y)) + p3y))) * ((((-3 : K) * p0y) + ((3 : K) * p1y)) / ((((-p0y) + ((3 : K) * p1y)) - ((3 : K) * p2y)) + p3y)))) + ((27 : K) * (p0y / ((((-p0y) + ((3 : K) * p1y)) - ((3 : K) * p2y)) + p3y)))) / (27 : K)) / (2 : K)) * ((((((((2 : K) * (((((3 : K) * p0y) - ((6 : K) * p1y)) + ((3 : K) * p2y)) / ((((-p0y) + ((3 : K) * p1y)) - ((3 : K) * p2y)) + p3y))) * (((((3 : K) * p0y) - ((6 : K) * p1y)) + ((3 : K) * p2y)) / ((((-p0y) + ((3 : K) * p1y)) - ((3 : K) * p2y)) + p3y))) * (((((3 : K) * p0y) - ((6 : K) * p1y)) + ((3 : K) * p2y)) / ((((-p0y) + ((3 : K) * p1y)) - ((3 : K) * p2y)) + p3y))) - (((9 : K) * (((((3 : K) * p0y) - ((6 : K) * p1y)) + ((3 : K) * p2y)) / ((((-p0y) + ((3 : K) * p1y)) - ((3 : K) * p2y)) + p3y))) * ((((-3 : K) * p0y) + ((3 : K) * p1y)) / ((((-p0y) + ((3 : K) * p1y)) - ((3 : K) * p2y)) + p3y)))) + ((27 : K) * (p0y / ((((-p0y) + ((3 : K) * p1y)) - ((3 : K) * p2y)) + p3y)))) / (27 : K)) / (2 : K))) + (((((((3 : K) * ((((-3 : K) * p0y) + ((3 : K) * p1y)) / ((((-p0y) + ((3 : K) * p1y)) - ((3 : K) * p2y)) + p3y))) - ((((((3 : K) * p0y) - ((6 : K) * p1y)) + ((3 : K) * p2y)) / ((((-p0y) + ((3 : K) * p1y)) - ((3 : K) * p2y)) + p3y)) * (((((3 : K) * p0y) - ((6 : K) * p1y)) + ((3 : K) * p2y)) / ((((-p0y) + ((3 : K) * p1y)) - ((3 : K) * p2y)) + p3y)))) / (3 : K)) / (3 : K)) * (((((3 : K) * ((((-3 : K) * p0y) + ((3 : K) * p1y)) / ((((-p0y) + ((3 : K) * p1y)) - ((3 : K) * p2y)) + p3y))) - ((((((3 : K) * p0y) - ((6 : K) * p1y)) + ((3 : K) * p2y)) / ((((-p0y) + ((3 : K) * p1y)) - ((3 : K) * p2y)) + p3y)) * (((((3 : K) * p0y) - ((6 : K) * p1y)) + ((3 : K) * p2y)) / ((((-p0y) + ((3 : K) * p1y)) - ((3 : K) * p2y)) + p3y)))) / (3 : K)) / (3 : K))) * (((((3 : K) * ((((-3 : K) * p0y) + ((3 : K) * p1y)) / ((((-p0y) + ((3 : K) * p1y)) - ((3 : K) * p2y)) + p3y))) - ((((((3 : K) * p0y) - ((6 : K) * p1y)) + ((3 : K) * p2y)) / ((((-p0y) + ((3 : K) * p1y)) - ((3 : K) * p2y)) + p3y)) * (((((3 : K) * p0y) - ((6 : K) * p1y)) + ((3 : K) * p2y)) / ((((-p0y) + ((3 : K) * p1y)) - ((3 : K) * p2y)) + p3y)))) / (3 : K)) / (3 : K)))) = (0 : K) then
+        if ((((((((2 : K) * (((((3 : K) * p0y) - ((6 : K) * p1y)) + ((3 : K) * p2y)) / ((((-p0y) + ((3 : K) * p1y)) - ((3 : K) * p2y)) + p3y))) * (((((3 : K) * p0y) - ((6 : K) * p1y)) + ((3 : K) * p2y)) / ((((-p0y) + ((3 : K) * p1y)) - ((3 : K) * p2y)) + p3y))) * (((((3 : K) * p0y) - ((6 : K) * p1y)) + ((3 : K) * p2y)) / ((((-p0y) + ((3 : K) * p1y)) - ((3 : K) * p2y)) + p3y))) - (((9 : K) * (((((3 : K) * p0y) - ((6 : K) * p1y)) + ((3 : K) * p2y)) / ((((-p0y) + ((3 : K) * p1y)) - ((3 : K) * p2y)) + p3y))) * ((((-3 : K) * p0y) + ((3 : K) * p1y)) / ((((-p0y) + ((3 : K) * p1y)) - ((3 : K) * p2y)) + p3y)))) + ((27 : K) * (p0y / ((((-p0y) + ((3 : K) * p1y)) - ((3 : K) * p2y)) + p3y)))) / (27 : K)) / (2 : K)) < (0 : K) then
+          if (-((((((((2 : K) * (((((3 : K) * p0y) - ((6 : K) * p1y)) + ((3 : K) * p2y)) / ((((-p0y) + ((3 : K) * p1y)) - ((3 : K) * p2y)) + p3y))) * (((((3 : K) * p0y) - ((6 : K) * p1y)) + ((3 : K) * p2y)) / ((((-p0y) + ((3 : K) * p1y)) - ((3 : K) * p2y)) + p3y))) * (((((3 : K) * p0y) - ((6 : K) * p1y)) + ((3 : K) * p2y)) / ((((-p0y) + ((3 : K) * p1y)) - ((3 : K) * p2y)) + p3y))) - (((9 : K) * (((((3 : K) * p0y) - ((6 : K) * p1y)) + ((3 : K) * p2y)) / ((((-p0y) + ((3 : K) * p1y)) - ((3 : K) * p2y)) + p3y))) * ((((-3 : K) * p0y) + ((3 : K) * p1y)) / ((((-p0y) + ((3 : K) * p1y)) - ((3 : K) * p2y)) + p3y)))) + ((27 : K) * (p0y / ((((-p0y) + ((3 : K) * p1y)) - ((3 : K) * p2y)) + p3y)))) / (27 : K)) / (2 : K))) < (0 : K) then
+            let v0 := ((3 : K) * p2y)
+            let v1 := ((3 : K) * p1y)
+            let v2 := ((((-p0y) + v1) - v0) + p3y)
+            let v3 := (((((3 : K) * p0y) - ((6 : K) * p1y)) + v0) / v2)
+            let v4 := (-(rpow (-(-((((((((2 : K) * v3) * v3) * v3) - (((9 : K) * v3) * ((((-3 : K) * p0y) + v1) / v2))) + ((27 : K) * (p0y / v2))) / (27 : K)) / (2 : K)))) ((1 : K) / 3)))
+            let v5 := (v3 / (3 : K))
+            [(((2 : K) * v4) - v5), ((-v4) - v5)]
+          else
+            let v0 := ((3 : K) * p2y)
+            let v1 := ((3 : K) * p1y)
+            let v2 := ((((-p0y) + v1) - v0) + p3y)
+            let v3 := (((((3 : K) * p0y) - ((6 : K) * p1y)) + v0) / v2)
+            let v4 := (rpow (-((((((((2 : K) * v3) * v3) * v3) - (((9 : K) * v3) * ((((-3 : K) * p0y) + v1) / v2))) + ((27 : K) * (p0y / v2))) / (27 : K)) / (2 : K))) ((1 : K) / 3))
+            let v5 := (v3 / (3 : K))
+            [(((2 : K) * v4) - v5), ((-v4) - v5)]
+        else
+          let v0 := ((3 : K) * p2y)
+          let v1 := ((3 : K) * p1y)
+          let v2 := ((((-p0y) + v1) - v0) + p3y)
+          let v3 := (((((3 : K) * p0y) - ((6 : K) * p1y)) + v0) / v2)
+          let v4 := (-(rpow ((((((((2 : K) * v3) * v3) * v3) - (((9 : K) * v3) * ((((-3 : K) * p0y) + v1) / v2))) + ((27 : K) * (p0y / v2))) / (27 : K)) / (2 : K)) ((1 : K) / 3)))
+          let v5 := (v3 / (3 : K))
+          [(((2 : K) * v4) - v5), ((-v4) - v5)]
+      else
+        if ((sqrt ((((((((((2 : K) * (((((3 : K) * p0y) - ((6 : K) * p1y)) + ((3 : K) * p2y)) / ((((-p0y) + ((3 : K) * p1y)) - ((3 : K) * p2y)) + p3y))) * (((((3 : K) * p0y) - ((6 : K) * p1y)) + ((3 : K) * p2y)) / ((((-p0y) + ((3 : K) * p1y)) - ((3 : K) * p2y)) + p3y))) * (((((3 : K) * p0y) - ((6 : K) * p1y)) + ((3 : K) * p2y)) / ((((-p0y) + ((3 : K) * p1y)) - ((3 : K) * p2y)) + p3y))) - (((9 : K) * (((((3 : K) * p0y) - ((6 : K) * p1y)) + ((3 : K) * p2y)) / ((((-p0y) + ((3 : K) * p1y)) - ((3 : K) * p2y)) + p3y))) * ((((-3 : K) * p0y) + ((3 : K) * p1y)) / ((((-p0y) + ((3 : K) * p1y)) - ((3 : K) * p2y)) + p3y)))) + ((27 : K) * (p0y / ((((-p0y) + ((3 : K) * p1y)) - ((3 : K) * p2y)) + p3y)))) / (27 : K)) / (2 : K)) * ((((((((2 : K) * (((((3 : K) * p0y) - ((6 : K) * p1y)) + ((3 : K) * p2y)) / ((((-p0y) + ((3 : K) * p1y)) - ((3 : K) * p2y)) + p3y))) * (((((3 : K) * p0y) - ((6 : K) * p1y)) + ((3 : K) * p2y)) / ((((-p0y) + ((3 : K) * p1y)) - ((3 : K) * p2y)) + p3y))) * (((((3 : K) * p0y) - ((6 : K) * p1y)) + ((3 : K) * p2y)) / ((((-p0y) + ((3 : K) * p1y)) - ((3 : K) * p2y)) + p3y))) - (((9 : K) * (((((3 : K) * p0y) - ((6 : K) * p1y)) + ((3 : K) * p2y)) / ((((-p0y) + ((3 : K) * p1y)) - ((3 : K) * p2y)) + p3y))) * ((((-3 : K) * p0y) + ((3 : K) * p1y)) / ((((-p0y) + ((3 : K) * p1y)) - ((3 : K) * p2y)) + p3y)))) + ((27 : K) * (p0y / ((((-p0y) + ((3 : K) * p1y)) - ((3 : K) * p2y)) + p3y)))) / (27 : K)) / (2 : K))) + (((((((3 : K) * ((((-3 : K) * p0y) + ((3 : K) * p1y)) / ((((-p0y) + ((3 : K) * p1y)) - ((3 : K) * p2y)) + p3y))) - ((((((3 : K) * p0y) - ((6 : K) * p1y)) + ((3 : K) * p2y)) / ((((-p0y) + ((3 : K) * p1y)) - ((3 : K) * p2y)) + p3y)) * (((((3 : K) * p0y) - ((6 : K) * p1y)) + ((3 : K) * p2y)) / ((((-p0y) + ((3 : K) * p1y)) - ((3 : K) * p2y)) + p3y)))) / (3 : K)) / (3 : K)) * (((((3 : K) * ((((-3 : K) * p0y) + ((3 : K) * p1y)) / ((((-p0y) + ((3 : K) * p1y)) - ((3 : K) * p2y)) + p3y))) - ((((((3 : K) * p0y) - ((6 : K) * p1y)) + ((3 : K) * p2y)) / ((((-p0y) + ((3 : K) * p1y)) - ((3 : K) * p2y)) + p3y)) * (((((3 : K) * p0y) - ((6 : K) * p1y)) + ((3 : K) * p2y)) / ((((-p0y) + ((3 : K) * p1y)) - ((3 : K) * p2y)) + p3y)))) / (3 : K)) / (3 : K))) * (((((3 : K) * ((((-3 : K) * p0y) + ((3 : K) * p1y)) / ((((-p0y) + ((3 : K) * p1y)) - ((3 : K) * p2y)) + p3y))) - ((((((3 : K) * p0y) - ((6 : K) * p1y)) + ((3 : K) * p2y)) / ((((-p0y) + ((3 : K) * p1y)) - ((3 : K) * p2y)) + p3y)) * (((((3 : K) * p0y) - ((6 : K) * p1y)) + ((3 : K) * p2y)) / ((((-p0y) + ((3 : K) * p1y)) - ((3 : K) * p2y)) + p3y)))) / (3 : K)) / (3 : K))))) - ((((((((2 : K) * (((((3 : K) * p0y) - ((6 : K) * p1y)) + ((3 : K) * p2y)) / ((((-p0y) + ((3 : K) * p1y)) - ((3 : K) * p2y)) + p3y))) * (((((3 : K) * p0y) - ((6 : K) * p1y)) + ((3 : K) * p2y)) / ((((-p0y) + ((3 : K) * p1y)) - ((3 : K) * p2y)) + p3y))) * (((((3 : K) * p0y) - ((6 : K) * p1y)) + ((3 : K) * p2y)) / ((((-p0y) + ((3 : K) * p1y)) - ((3 : K) * p2y)) + p3y))) - (((9 : K) * (((((3 : K) * p0y) - ((6 : K) * p1y)) + ((3 : K) * p2y)) / ((((-p0y) + ((3 : K) * p1y)) - ((3 : K) * p2y)) + p3y))) * ((((-3 : K) * p0y) + ((3 : K) * p1y)) / ((((-p0y) + ((3 : K) * p1y)) - ((3 : K) * p2y)) + p3y)))) + ((27 : K) * (p0y / ((((-p0y) + ((3 : K) * p1y)) - ((3 : K) * p2y)) + p3y)))) / (27 : K)) / (2 : K))) < (0 : K) then
+          if ((sqrt ((((((((((2 : K) * (((((3 : K) * p0y) - ((6 : K) * p1y)) + ((3 : K) * p2y)) / ((((-p0y) + ((3 : K) * p1y)) - ((3 : K) * p2y)) + p3y))) * (((((3 : K) * p0y) - ((6 : K) * p1y)) + ((3 : K) * p2y)) / ((((-p0y) + ((3 : K) * p1y)) - ((3 : K) * p2y)) + p3y))) * (((((3 : K) * p0y) - ((6 : K) * p1y)) + ((3 : K) * p2y)) / ((((-p0y) + ((3 : K) * p1y)) - ((3 : K) * p2y)) + p3y))) - (((9 : K) * (((((3 : K) * p0y) - ((6 : K) * p1y)) + ((3 : K) * p2y)) / ((((-p0y) + ((3 : K) * p1y)) - ((3 : K) * p2y)) + p3y))) * ((((-3 : K) * p0y) + ((3 : K) * p1y)) / ((((-p0y) + ((3 : K) * p1y)) - ((3 : K) * p2y)) + p3y)))) + ((27 : K) * (p0y / ((((-p0y) + ((3 : K) * p1y)) - ((3 : K) * p2y)) + p3y)))) / (27 : K)) / (2 : K)) * ((((((((2 : K) * (((((3 : K) * p0y) - ((6 : K) * p1y)) + ((3 : K) * p2y)) / ((((-p0y) + ((3 : K) * p1y)) - ((3 : K) * p2y)) + p3y))) * (((((3 : K) * p0y) - ((6 : K) * p1y)) + ((3 : K) * p2y)) / ((((-p0y) + ((3 : K) * p1y)) - ((3 : K) * p2y)) + p3y))) * (((((3 : K) * p0y) - ((6 : K) * p1y)) + ((3 : K) * p2y)) / ((((-p0y) + ((3 : K) * p1y)) - ((3 : K) * p2y)) + p3y))) - (((9 : K) * (((((3 : K) * p0y) - ((6 : K) * p1y)) + ((3 : K) * p2y)) / ((((-p0y) + ((3 : K) * p1y)) - ((3 : K) * p2y)) + p3y))) * ((((-3 : K) * p0y) + ((3 : K) * p1y)) / ((((-p0y) + ((3 : K) * p1y)) - ((3 : K) * p2y)) + p3y)))) + ((27 : K) * (p0y / ((((-p0y) + ((3 : K) * p1y)) - ((3 : K) * p2y)) + p3y)))) / (27 : K)) / (2 : K))) + (((((((3 : K) * ((((-3 : K) * p0y) + ((3 : K) * p1y)) / ((((-p0y) + ((3 : K) * p1y)) - ((3 : K) * p2y)) + p3y))) - ((((((3 : K) * p0y) - ((6 : K) * p1y)) + ((3 : K) * p2y)) / ((((-p0y) + ((3 : K) * p1y)) - ((3 : K) * p2y)) + p3y)) * (((((3 : K) * p0y) - ((6 : K) * p1y)) + ((3 : K) * p2y)) / ((((-p0y) + ((3 : K) * p1y)) - ((3 : K) * p2y)) + p3y)))) / (3 : K)) / (3 : K)) * (((((3 : K) * ((((-3 : K) * p0y) + ((3 : K) * p1y)) / ((((-p0y) + ((3 : K) * p1y)) - ((3 : K) * p2y)) + p3y))) - ((((((3 : K) * p0y) - ((6 : K) * p1y)) + ((3 : K) * p2y)) / ((((-p0y) + ((3 : K) * p1y)) - ((3 : K) * p2y)) + p3y)) * (((((3 : K) * p0y) - ((6 : K) * p1y)) + ((3 : K) * p2y)) / ((((-p0y) + ((3 : K) * p1y)) - ((3 : K) * p2y)) + p3y)))) / (3 : K)) / (3 : K))) * (((((3 : K) * ((((-3 : K) * p0y) + ((3 : K) * p1y)) / ((((-p0y) + ((3 : K) * p1y)) - ((3 : K) * p2y)) + p3y))) - ((((((3 : K) * p0y) - ((6 : K) * p1y)) + ((3 : K) * p2y)) / ((((-p0y) + ((3 : K) * p1y)) - ((3 : K) * p2y)) + p3y)) * (((((3 : K) * p0y) - ((6 : K) * p1y)) + ((3 : K) * p2y)) / ((((-p0y) + ((3 : K) * p1y)) - ((3 : K) * p2y)) + p3y)))) / (3 : K)) / (3 : K))))) + ((((((((2 : K) * (((((3 : K) * p0y) - ((6 : K) * p1y)) + ((3 : K) * p2y)) / ((((-p0y) + ((3 : K) * p1y)) - ((3 : K) * p2y)) + p3y))) * (((((3 : K) * p0y) - ((6 : K) * p1y)) + ((3 : K) * p2y)) / ((((-p0y) + ((3 : K) * p1y)) - ((3 : K) * p2y)) + p3y))) * (((((3 : K) * p0y) - ((6 : K) * p1y)) + ((3 : K) * p2y)) / ((((-p0y) + ((3 : K) * p1y)) - ((3 : K) * p2y)) + p3y))) - (((9 : K) * (((((3 : K) * p0y) - ((6 : K) * p1y)) + ((3 : K) * p2y)) / ((((-p0y) + ((3 : K) * p1y)) - ((3 : K) * p2y)) + p3y))) * ((((-3 : K) * p0y) + ((3 : K) * p1y)) / ((((-p0y) + ((3 : K) * p1y)) - ((3 : K) * p2y)) + p3y)))) + ((27 : K) * (p0y / ((((-p0y) + ((3 : K) * p1y)) - ((3 : K) * p2y)) + p3y)))) / (27 : K)) / (2 : K))) < (0 : K) then
+            let v0 := ((3 : K) * p2y)
+            let v1 := ((3 : K) * p1y)
+            let v2 := ((((-p0y) + v1) - v0) + p3y)
+            let v3 := (((((3 : K) * p0y) - ((6 : K) * p1y)) + v0) / v2)
+            let v4 := ((((-3 : K) * p0y) + v1) / v2)
+            let v5 := ((((((((2 : K) * v3) * v3) * v3) - (((9 : K) * v3) * v4)) + ((27 : K) * (p0y / v2))) / (27 : K)) / (2 : K))
+            let v6 := (((((3 : K) * v4) - (v3 * v3)) / (3 : K)) / (3 : K))
+            let v7 := (sqrt ((v5 * v5) + ((v6 * v6) * v6)))
+            [(((-(rpow (-(v7 - v5)) ((1 : K) / 3))) - (-(rpow (-(v7 + v5)) ((1 : K) / 3)))) - (v3 / (3 : K)))]
+          else
+            let v0 := ((3 : K) * p2y)
+            let v1 := ((3 : K) * p1y)
+            let v2 := ((((-p0y) + v1) - v0) + p3y)
+            let v3 := (((((3 : K) * p0y) - ((6 : K) * p1y)) + v0) / v2)
+            let v4 := ((((-3 : K) * p0y) + v1) / v2)
+            let v5 := ((((((((2 : K) * v3) * v3) * v3) - (((9 : K) * v3) * v4)) + ((27 : K) * (p0y / v2))) / (27 : K)) / (2 : K))
+            let v6 := (((((3 : K) * v4) - (v3 * v3)) / (3 : K)) / (3 : K))
+            let v7 := (sqrt ((v5 * v5) + ((v6 * v6) * v6)))
+            [(((-(rpow (-(v7 - v5)) ((1 : K) / 3))) - (rpow (v7 + v5) ((1 : K) / 3))) - (v3 / (3 : K)))]
+        else
+          if ((sqrt ((((((((((2 : K) * (((((3 : K) * p0y) - ((6 : K) * p1y)) + ((3 : K) * p2y)) / ((((-p0y) + ((3 : K) * p1y)) - ((3 : K) * p2y)) + p3y))) * (((((3 : K) * p0y) - ((6 : K) * p1y)) + ((3 : K) * p2y)) / ((((-p0y) + ((3 : K) * p1y)) - ((3 : K) * p2y)) + p3y))) * (((((3 : K) * p0y) - ((6 : K) * p1y)) + ((3 : K) * p2y)) / ((((-p0y) + ((3 : K) * p1y)) - ((3 : K) * p2y)) + p3y))) - (((9 : K) * (((((3 : K) * p0y) - ((6 : K) * p1y)) + ((3 : K) * p2y)) / ((((-p0y) + ((3 : K) * p1y)) - ((3 : K) * p2y)) + p3y))) * ((((-3 : K) * p0y) + ((3 : K) * p1y)) / ((((-p0y) + ((3 : K) * p1y)) - ((3 : K) * p2y)) + p3y)))) + ((27 : K) * (p0y / ((((-p0y) + ((3 : K) * p1y)) - ((3 : K) * p2y)) + p3y)))) / (27 : K)) / (2 : K)) * ((((((((2 : K) * (((((3 : K) * p0y) - ((6 : K) * p1y)) + ((3 : K) * p2y)) / ((((-p0y) + ((3 : K) * p1y)) - ((3 : K) * p2y)) + p3y))) * (((((3 : K) * p0y) - ((6 : K) * p1y)) + ((3 : K) * p2y)) / ((((-p0y) + ((3 : K) * p1y)) - ((3 : K) * p2y)) + p3y))) * (((((3 : K) * p0y) - ((6 : K) * p1y)) + ((3 : K) * p2y)) / ((((-p0y) + ((3 : K) * p1y)) - ((3 : K) * p2y)) + p3y))) - (((9 : K) * (((((3 : K) * p0y) - ((6 : K) * p1y)) + ((3 : K) * p2y)) / ((((-p0y) + ((3 : K) * p1y)) - ((3 : K) * p2y)) + p3y))) * ((((-3 : K) * p0y) + ((3 : K) * p1y)) / ((((-p0y) + ((3 : K) * p1y)) - ((3 : K) * p2y)) + p3y)))) + ((27 : K) * (p0y / ((((-p0y) + ((3 : K) * p1y)) - ((3 : K) * p2y)) + p3y)))) / (27 : K)) / (2 : K))) + (((((((3 : K) * ((((-3 : K) * p0y) + ((3 : K) * p1y)) / ((((-p0y) + ((3 : K) * p1y)) - ((3 : K) * p2y)) + p3y))) - ((((((3 : K) * p0y) - ((6 : K) * p1y)) + ((3 : K) * p2y)) / ((((-p0y) + ((3 : K) * p1y)) - ((3 : K) * p2y)) + p3y)) * (((((3 : K) * p0y) - ((6 : K) * p1y)) + ((3 : K) * p2y)) / ((((-p0y) + ((3 : K) * p1y)) - ((3 : K) * p2y)) + p3y)))) / (3 : K)) / (3 : K)) * (((((3 : K) * ((((-3 : K) * p0y) + ((3 : K) * p1y)) / ((((-p0y) + ((3 : K) * p1y)) - ((3 : K) * p2y)) + p3y))) - ((((((3 : K) * p0y) - ((6 : K) * p1y)) + ((3 : K) * p2y)) / ((((-p0y) + ((3 : K) * p1y)) - ((3 : K) * p2y)) + p3y)) * (((((3 : K) * p0y) - ((6 : K) * p1y)) + ((3 : K) * p2y)) / ((((-p0y) + ((3 : K) * p1y)) - ((3 : K) * p2y)) + p3y)))) / (3 : K)) / (3 : K))) * (((((3 : K) * ((((-3 : K) * p0y) + ((3 : K) * p1y)) / ((((-p0y) + ((3 : K) * p1y)) - ((3 : K) * p2y)) + p3y))) - ((((((3 : K) * p0y) - ((6 : K) * p1y)) + ((3 : K) * p2y)) / ((((-p0y) + ((3 : K) * p1y)) - ((3 : K) * p2y)) + p3y)) * (((((3 : K) * p0y) - ((6 : K) * p1y)) + ((3 : K) * p2y)) / ((((-p0y) + ((3 : K) * p1y)) - ((3 : K) * p2y)) + p3y)))) / (3 : K)) / (3 : K))))) + ((((((((2 : K) * (((((3 : K) * p0y) - ((6 : K) * p1y)) + ((3 : K) * p2y)) / ((((-p0y) + ((3 : K) * p1y)) - ((3 : K) * p2y)) + p3y))) * (((((3 : K) * p0y) - ((6 : K) * p1y)) + ((3 : K) * p2y)) / ((((-p0y) + ((3 : K) * p1y)) - ((3 : K) * p2y)) + p3y))) * (((((3 : K) * p0y) - ((6 : K) * p1y)) + ((3 : K) * p2y)) / ((((-p0y) + ((3 : K) * p1y)) - ((3 : K) * p2y)) + p3y))) - (((9 : K) * (((((3 : K) * p0y) - ((6 : K) * p1y)) + ((3 : K) * p2y)) / ((((-p0y) + ((3 : K) * p1y)) - ((3 : K) * p2y)) + p3y))) * ((((-3 : K) * p0y) + ((3 : K) * p1y)) / ((((-p0y) + ((3 : K) * p1y)) - ((3 : K) * p2y)) + p3y)))) + ((27 : K) * (p0y / ((((-p0y) + ((3 : K) * p1y)) - ((3 : K) * p2y)) + p3y)))) / (27 : K)) / (2 : K))) < (0 : K) then
+            let v0 := ((3 : K) * p2y)
+            let v1 := ((3 : K) * p1y)
+            let v2 := ((((-p0y) + v1) - v0) + p3y)
+            let v3 := (((((3 : K) * p0y) - ((6 : K) * p1y)) + v0) / v2)
+            let v4 := ((((-3 : K) * p0y) + v1) / v2)
+            let v5 := ((((((((2 : K) * v3) * v3) * v3) - (((9 : K) * v3) * v4)) + ((27 : K) * (p0y / v2))) / (27 : K)) / (2 : K))
+            let v6 := (((((3 : K) * v4) - (v3 * v3)) / (3 : K)) / (3 : K))
+            let v7 := (sqrt ((v5 * v5) + ((v6 * v6) * v6)))
+            [(((rpow (v7 - v5) ((1 : K) / 3)) - (-(rpow (-(v7 + v5)) ((1 : K) / 3)))) - (v3 / (3 : K)))]
+          else
+            let v0 := ((3 : K) * p2y)
+            let v1 := ((3 : K) * p1y)
+            let v2 := ((((-p0y) + v1) - v0) + p3y)
+            let v3 := (((((3 : K) * p0y) - ((6 : K) * p1y)) + v0) / v2)
+            let v4 := ((((-3 : K) * p0y) + v1) / v2)
+            let v5 := ((((((((2 : K) * v3) * v3) * v3) - (((9 : K) * v3) * v4)) + ((27 : K) * (p0y / v2))) / (27 : K)) / (2 : K))
+            let v6 := (((((3 : K) * v4) - (v3 * v3)) / (3 : K)) / (3 : K))
+            let v7 := (sqrt ((v5 * v5) + ((v6 * v6) * v6)))
+            [(((rpow (v7 - v5) ((1 : K) / 3)) - (rpow (v7 + v5) ((1 : K) / 3))) - (v3 / (3 : K)))]
+
+
 /-- arguments QuadraticBezier.tOfPoint passes to quadraticRoots (x then y) -/
 
 @[gen_def] def quad_tOfPoint_coeffs_ax (p0x p0y p1x p1y p2x p2y qx qy : K) : K :=
@@ -282,5 +453,9 @@ def Gen.dispatchRoots (tbl : FnTable) (name : String) (a : List ℚ) : Option (L
   | "cubic_dcoeffs" => if a.length = 8 then some (Gen.cubic_dcoeffs (a.getD 0 0) (a.getD 1 0) (a.getD 2 0) (a.getD 3 0) (a.getD 4 0) (a.getD 5 0) (a.getD 6 0) (a.getD 7 0)) else none
   | "quad_findDRoots" => if a.length = 6 then some (Gen.quad_findDRoots (a.getD 0 0) (a.getD 1 0) (a.getD 2 0) (a.getD 3 0) (a.getD 4 0) (a.getD 5 0)) else none
   | "quad_rootcoeffs_y" => if a.length = 6 then some (Gen.quad_rootcoeffs_y (a.getD 0 0) (a.getD 1 0) (a.getD 2 0) (a.getD 3 0) (a.getD 4 0) (a.getD 5 0)) else none
+  | "quadraticRoots_unlimited" => if a.length = 3 then some (Gen.quadraticRoots_unlimited (tbl.sqrt) (a.getD 0 0) (a.getD 1 0) (a.getD 2 0)) else none
+  | "cubic_rootcoeffs_y" => if a.length = 8 then some (Gen.cubic_rootcoeffs_y (a.getD 0 0) (a.getD 1 0) (a.getD 2 0) (a.getD 3 0) (a.getD 4 0) (a.getD 5 0) (a.getD 6 0) (a.getD 7 0)) else none
+  | "cubic_findRoots_dispatch" => if a.length = 8 then some (Gen.cubic_findRoots_dispatch (a.getD 0 0) (a.getD 1 0) (a.getD 2 0) (a.getD 3 0) (a.getD 4 0) (a.getD 5 0) (a.getD 6 0) (a.getD 7 0)) else none
+  | "cubic_cardano_roots" => if a.length = 8 then some (Gen.cubic_cardano_roots (tbl.pi) (tbl.sqrt) (tbl.cos) (tbl.acos) (tbl.rpow) (a.getD 0 0) (a.getD 1 0) (a.getD 2 0) (a.getD 3 0) (a.getD 4 0) (a.getD 5 0) (a.getD 6 0) (a.getD 7 0)) else none
   | "quad_tOfPoint_coeffs" => if a.length = 8 then some (Gen.quad_tOfPoint_coeffs (a.getD 0 0) (a.getD 1 0) (a.getD 2 0) (a.getD 3 0) (a.getD 4 0) (a.getD 5 0) (a.getD 6 0) (a.getD 7 0)) else none
   | _ => none
